@@ -13,6 +13,7 @@ import traceback
 VERIF = os.path.dirname(os.path.dirname(os.path.abspath(__file__)))
 LEAN = os.path.join(VERIF, "lean")
 REPO = os.environ.get("GSV_REPO", "/repo")
+OUT = os.environ.get("GSV_OUT", VERIF)     # where evidence/ and replays/ are written (development aid: mutant runs)
 SRC = os.path.join(REPO, "src", "gstools")
 ALLOWED_AXIOMS = {"propext", "Classical.choice", "Quot.sound"}
 FORBIDDEN = re.compile(r"\b(sorry|admit|native_decide|bv_decide|implemented_by|unsafe)\b|^\s*axiom\s|maxHeartbeats\s+0\b")
@@ -240,10 +241,10 @@ def match_known(prop, key):
 
 # ------------------------------------------------------------------ main driver
 def write_replay(prop, payload):
-    os.makedirs(os.path.join(VERIF, "replays"), exist_ok=True)
+    os.makedirs(os.path.join(OUT, "replays"), exist_ok=True)
     h = hashlib.sha1(json.dumps(payload, sort_keys=True, default=str).encode()).hexdigest()[:10]
     path = os.path.join("replays", f"{prop}-{h}.json")
-    with open(os.path.join(VERIF, path), "w") as fh:
+    with open(os.path.join(OUT, path), "w") as fh:
         json.dump(payload, fh, indent=1, default=str)
     return path
 
@@ -347,8 +348,8 @@ def run_check(prop, tier, seed, replay=None):
     ev = {"property_id": prop, "tier": tier, "seed": seed, "level": "proof", "coverage": cov,
           "assumptions": getattr(mod, "ASSUMPTIONS", []), "wall_s": round(wall, 2),
           "violations": len(unknown) + (1 if (broken and not unknown) else 0)}
-    os.makedirs(os.path.join(VERIF, "evidence"), exist_ok=True)
-    with open(os.path.join(VERIF, "evidence", f"{prop}.json"), "w") as fh:
+    os.makedirs(os.path.join(OUT, "evidence"), exist_ok=True)
+    with open(os.path.join(OUT, "evidence", f"{prop}.json"), "w") as fh:
         json.dump(ev, fh, indent=1, default=str)
     for l in lines:
         print(l)
